@@ -3,7 +3,7 @@
    invocation in order, final callback lists); check_case re-runs the model and compares. *)
 From Coq Require Import List Arith ZArith NArith Bool.
 Import ListNotations.
-Require Import FV.Base.Util FV.Gen.C12 FV.C12.Model FV.C12.ConcModel.
+Require Import FV.Base.Util FV.Gen.C12 FV.C12.Model FV.C12.ConcModel FV.C12.ReModel.
 
 Definition tnum_eqb (a b : tnum) : bool :=
   match a, b with
@@ -44,7 +44,27 @@ Inductive case :=
    implementation did: what every call saw when it returned (in order of return), final cache, invocation log *)
 | CConc (d : dsc) (imp : list (nat * nat * option nat)) (regs : list (ckey * cbname * nat))
         (progs : list (list call)) (steps : list cstep)
-        (o_seen : list (nat * nat * obsv)) (o_cache : list (key * entry)) (o_log : list inv).
+        (o_seen : list (nat * nat * obsv)) (o_cache : list (key * entry)) (o_log : list inv)
+(* callbacks that register / unregister callbacks while they are dispatched (ReModel.v): what each invocation did
+   (calls made, final behaviour), the history of accepted lines / registrations / unregistrations, and what the
+   implementation did: final cache, every invocation in order (dispatch / immediate / handleError), final lists *)
+| CRe (bh : list (nat * rbeh)) (ops : list rop)
+      (o_cache : list (key * entry)) (o_log : list rinv) (o_cbs : list (cbname * ckey * list nat)).
+
+Definition beh_eqb (a b : beh) : bool :=
+  match a, b with BOk, BOk | BUnreg, BUnreg | BExc, BExc => true | _, _ => false end.
+Definition rinv_eqb (a b : rinv) : bool :=
+  match a, b with
+  | RDisp c cn lv k e x, RDisp c' cn' lv' k' e' x' | RImm c cn lv k e x, RImm c' cn' lv' k' e' x' =>
+      Nat.eqb c c' && cbname_eqb cn cn' && ckey_eqb lv lv' && key_eqb k k' && entry_eqb e e' && beh_eqb x x'
+  | RErr c x, RErr c' x' => Nat.eqb c c' && beh_eqb x x'
+  | RAdd c cn lv, RAdd c' cn' lv' => Nat.eqb c c' && cbname_eqb cn cn' && ckey_eqb lv lv'
+  | _, _ => false
+  end.
+Definition rbeh_of (l : list (nat * rbeh)) (n : nat) : rbeh :=
+  match assoc_nat n l with Some b => b | None => {| r_acts := []; r_fin := BOk |} end.
+Definition re_final (bh : list (nat * rbeh)) (ops : list rop) : rst := rrun (rbeh_of bh) (rst0 [0]) ops.
+Definition re_visible (s : rst) : list rinv := filter (fun i => negb (is_ghost i)) (rev (rlog s)).
 
 Definition model_final (d : dsc) imp bh ops : st :=
   run (the_client d) (imp_of imp) (beh_of bh) (st0 [0]) ops.
@@ -84,6 +104,12 @@ Definition check_case (c : case) : bool :=
       && list_eqb seen_eqb (rev (seen s)) o_seen
       && list_eqb (pair_eqb key_eqb entry_eqb) (cache (base s)) o_cache
       && list_eqb inv_eqb (rev (log (base s))) o_log
+  | CRe bh ops o_cache o_log o_cbs =>
+      let s := re_final bh ops in
+      negb (rbad s)
+      && list_eqb (pair_eqb key_eqb entry_eqb) (rcache s) o_cache
+      && list_eqb rinv_eqb (re_visible s) o_log
+      && forallb (fun x => list_eqb Nat.eqb (rcbs s (fst (fst x)) (snd (fst x))) (snd x)) o_cbs
   end.
 
 (* diagnosis: what the model computes *)
@@ -93,6 +119,12 @@ Definition model_result (c : case) : list (key * entry) * list inv :=
   | CE2E _ _ _ _ => ([], [])
   | CConc d imp regs progs steps _ _ _ =>
       let s := conc_final d imp regs progs steps in (cache (base s), rev (log (base s)))
+  | CRe _ _ _ _ _ => ([], [])
+  end.
+Definition model_re (c : case) : bool * list (key * entry) * list rinv :=
+  match c with
+  | CRe bh ops _ _ _ => let s := re_final bh ops in (rbad s, rcache s, re_visible s)
+  | _ => (false, [], [])
   end.
 Definition model_conc (c : case) : bool * list (nat * nat * obsv) * rxpc :=
   match c with
